@@ -1,2 +1,53 @@
--- driver stub (not built yet)
-def main : IO Unit := pure ()
+import QmcModel.Proto
+import QmcModel.Stepper
+import QmcModel.Autocorr
+open Qmc Qmc.Proto Qmc.MockIO
+
+/-! Driver for C20: evaluates the rational model of the autocorrelation helpers on the inputs of
+harness/src/bin/c20.rs. -/
+
+def render (samples : List (List Rat)) : String :=
+  if autocorrPanics samples then "panic" else
+  let T := samples.length
+  if autocorrDefined samples then
+    String.intercalate " " (toString T :: (autocorr samples).map showApprox)
+  else
+    String.intercalate " " (toString T :: List.replicate T "nan")
+
+def parseFreq (s : String) : Nat := if s == "none" then 1 else parseNat s
+
+def parseTable (s : String) : List (List Rat) := (s.splitOn ";").map parseRats
+
+def parseStates (s : String) : List (List Bool) := (s.splitOn ",").map parseBits
+
+def parseProds (s : String) : List (List Nat) :=
+  (s.splitOn ",").map fun p => if p == "_" then [] else (p.splitOn ".").map parseNat
+
+def cyc {α : Type} [Inhabited α] (xs : List α) (age : Nat) : α := xs.getD ((age - 1) % xs.length) default
+
+def step (toks : List String) : String :=
+  match toks with
+  | ["custom", T, f, table] =>
+    let tab := parseTable table
+    render (calcSamples (· + 1) (fun a => a % 7) (bitsOf 16) (fun _ st => cyc tab (ofBits st)) (parseNat T) (parseFreq f) 0)
+  | ["vars", T, f, states] =>
+    let sts := parseStates states
+    render (calcSamples (· + 1) (fun a => a % 7) (fun a => cyc sts a) (fun _ => varMapper) (parseNat T) (parseFreq f) 0)
+  | ["prod", T, f, states, prods] =>
+    let sts := parseStates states
+    render (calcSamples (· + 1) (fun a => a % 7) (fun a => cyc sts a) (fun _ => prodMapper (parseProds prods)) (parseNat T) (parseFreq f) 0)
+  | ["temper", T, s, f, nrep, tables, script] =>
+    let T := parseNat T; let s := parseNat s; let f := parseNat f; let nrep := parseNat nrep
+    let tabs := (tables.splitOn "!").map parseTable
+    if chunkPanics nrep f then "panic" else
+    let R := mockSys [] [] []
+    let c0 : List Rep × SwapScript := ((List.range nrep).map fun i => { gid := i, age := 0 }, parseSwapScript script)
+    -- the tempering helper always uses the parallel driver
+    let x := chunkRun (parallelContainer R revRoundRobin) T s f c0
+    String.intercalate " " ((List.range nrep).map fun i =>
+      render (x.samples.map fun row =>
+        let r := decRep (row.getD i [])
+        cyc (tabs.getD r.gid []) r.age))
+  | _ => "bad-op"
+
+def main : IO Unit := run step
